@@ -302,6 +302,17 @@ def emission_premises(run, name, cases):
     return [x.strip() == "true" for x in out]
 
 
+def cover_premises(run, name, cases):
+    """CoverageFacts.cover_premises_req on each (coq_prog, coq_request): are the premises of the validator-free COVERAGE theorem
+    (emitted = exactly the applications a requested output depends on) met - the reflected object graph is acyclic (a global
+    postorder ranks every node above its operands and subgraph results, within the builder's fuel) and only operator / function
+    nodes carry subgraph attributes?  Returns a list of booleans."""
+    header = COQ_HEADER.replace("Build Show Validate.", "Build Show Validate CoverageFacts.")
+    exprs = [f"cover_premises_req {p} {r}" for p, r in cases]
+    out = run.coq_eval(name, header, exprs, shard=max(1, min(60, (len(exprs) + 15) // 16)))
+    return [x.strip() == "true" for x in out]
+
+
 # ------------------------------------------------------------------------------------------------ generator
 
 F32 = np.float32
